@@ -7,6 +7,7 @@ KB_TB = [
 
 
 HND_FILES = ["Model/Handler.v", "Run/HandlerRun.v"]
+HNDB_FILES = ["Proofs/HandlerB_Base.v", "Proofs/HandlerB_Frame.v", "Proofs/HandlerB_Session.v", "Proofs/HandlerB_Auth.v", "Proofs/HandlerB_Step.v", "Proofs/HandlerB_Fresh.v", "Proofs/HandlerB_Nonce.v"]
 HND_TB = [
     "modelled, not verified: cryptography is symbolic (Dolev-Yao terms for ECDH/HKDF keys, AES-GCM ciphertexts, ECDSA id-signatures; the harness maps real datagrams to terms with the crate's own primitives and tests that the real primitives behave like the terms on every generated case); tokio timers are deadlines fired on a 5 ms grid of a paused clock; the order in which timers with one and the same deadline fire is an oracle choice (insertion order or its reverse, the two behaviours of tokio-util's timer wheel); randomness is an oracle input observed on the wire; session expiry by age is not part of the handler model (Model/Lru.v); the UDP socket tasks are replaced by channels (real RecvHandler::handle_inbound and Packet::encode/decode are used)",
 ]
@@ -130,12 +131,12 @@ SPECS = {
         ],
         "explanation": "theorems about Model/Packet.v (round trip incl. authenticated data for every keystream, layout, decode never panics, one lemma per rejection rule with the exact error, accepted => every rule passed, aad = received bytes, injectivity of datagram -> (aad, body), wrong id needs a keystream collision) + correspondence of Packet::encode / Packet::authenticated_data / Packet::decode with the model on generated packets and on datagrams malformed in the unmasked domain + direct monitor (round trip, layout, no panic, every strictness rule, other id rejected)",
     },
-    "C01": _hnd("c01"),
-    "C02": _hnd("c02"),
-    "C03": _hnd("c03"),
-    "C04": _hnd("c04"),
+    "C01": _hnd("c01", extra=HNDB_FILES + ["Proofs/HandlerB_Examples.v"]),
+    "C02": _hnd("c02", extra=HNDB_FILES + ["Proofs/HandlerB_Examples.v"]),
+    "C03": _hnd("c03", extra=HNDB_FILES + ["Proofs/HandlerB_Examples.v"]),
+    "C04": _hnd("c04", extra=["Proofs/HandlerInv.v", "Proofs/HandlerA_Ledger.v"]),
     "C13": _hnd("c13", extra=["Proofs/HandlerInv.v"]),
-    "C19": _hnd("c19"),
+    "C19": _hnd("c19", extra=HNDB_FILES + ["Proofs/HandlerB_Examples.v"]),
     "C17": {
         "coq_files": ["Generated/Params.v", "Model/IpVote.v", "Proofs/IpVote.v", "Run/IpVoteRun.v"],
         "runner_vo": "Run/IpVoteRun.v",
